@@ -158,4 +158,119 @@ theorem insertColCrit_spec (m : Mode) (C i : Nat) (hi : i ≤ C) (rows : List (L
       rw [hz]
       simp [insAt, blk, Y, List.flatten_append]
 
+/-- `insert_row` with an honest iterator, any sufficient spare capacity, both modes: the complete outcome -/
+theorem insertRow_honest (m : Mode) (cap : Nat) (t : TD α) (h : t.Inv) (i : Nat) (xs spare : List α)
+    (hi : i ≤ t.numRows) (hlen : t.numRows = 0 ∨ xs.length = t.numCols)
+    (hcap : t.data.length + xs.length ≤ cap) (hsp : xs.length ≤ spare.length)
+    (hword : t.data.length + xs.length < WORD) :
+    t.insertRow m cap i (honest xs) spare =
+      ⟨⟨t.data.take (i * t.numCols) ++ xs ++ t.data.drop (i * t.numCols),
+        if xs.length > 0 then t.numRows + 1 else t.numRows, xs.length⟩, .ok (), [], []⟩ := by
+  have hC : (if t.numRows = 0 then xs.length else t.numCols) = xs.length := by
+    rcases hlen with h0 | h1
+    · simp [h0]
+    · simp [h1]
+  have hs : i * xs.length = i * t.numCols := by
+    rcases hlen with h0 | h1
+    · have : i = 0 := by omega
+      simp [this]
+    · rw [h1]
+  have hsle : i * t.numCols ≤ t.data.length := by
+    rw [h.len, Nat.mul_comm t.numCols]
+    exact Nat.mul_le_mul_right _ hi
+  have hlenOk : (t.numRows == 0 || t.numCols == xs.length) = true := by
+    rcases hlen with h0 | h1
+    · simp [h0]
+    · simp [h1]
+  have hres : reserveOk cap t.data.length xs.length = true := by simp [reserveOk, hcap]
+  have hmul : umul m i xs.length = .ok (i * t.numCols) := by
+    rw [← hs]; apply umul_ok; rw [hs]; omega
+  let A := t.data.take (i * t.numCols)
+  let T := t.data.drop (i * t.numCols)
+  let J := spare.take xs.length
+  let Y := spare.drop xs.length
+  have hA : A.length = i * t.numCols := by simp [A]; omega
+  have hT : T.length = t.data.length - i * t.numCols := by simp [T]
+  have hJ : J.length = xs.length := by simp [J]; omega
+  have hbuf : t.data ++ spare = A ++ T ++ J ++ Y := by simp [A, T, J, Y]
+  obtain ⟨J', hJ', hmv⟩ := memmoveChecked_right A T J Y
+  rw [hA, hJ, hT, ← hbuf] at hmv
+  have hfill := fillLoop_spec xs A J' (T ++ Y) (by omega)
+  rw [hA, ← List.append_assoc] at hfill
+  have hspn : ¬ spare.length < xs.length := by omega
+  unfold TD.insertRow
+  simp only [honest, hlenOk, hres, hC, hmul, hmv, hfill, debugExhausted_nil, Bool.not_true, Bool.false_eq_true,
+    if_false, if_neg hspn, hi, hsle]
+  have htake : List.take (t.data.length + xs.length) (A ++ xs ++ (T ++ Y)) = A ++ xs ++ T := by
+    rw [show A ++ xs ++ (T ++ Y) = (A ++ xs ++ T) ++ Y by simp]
+    apply List.take_left'
+    simp only [List.length_append, hA, hT]; omega
+  simp only [not_true_eq_false, if_false, htake, pure_eq]
+  rfl
+
+theorem insAt_length (i : Nat) (ρ : List α) (x : α) (hi : i ≤ ρ.length) : (insAt i ρ x).length = ρ.length + 1 := by
+  simp [insAt]; omega
+
+theorem zipWith_insAt_row_length (C i : Nat) (hi : i ≤ C) (rows : List (List α)) (xs : List α)
+    (hrows : ∀ r ∈ rows, r.length = C) : ∀ r ∈ List.zipWith (insAt i) rows xs, r.length = C + 1 := by
+  induction rows generalizing xs with
+  | nil => simp
+  | cons ρ rows ih =>
+    cases xs with
+    | nil => simp
+    | cons x xs =>
+      intro r hr
+      simp only [List.zipWith_cons_cons, List.mem_cons] at hr
+      rcases hr with rfl | hr
+      · have := hrows ρ (by simp)
+        rw [insAt_length i ρ x (by omega), this]
+      · exact ih xs (fun r hr => hrows r (by simp [hr])) r hr
+
+theorem zipWith_insAt_flatten_length (C i : Nat) (hi : i ≤ C) (rows : List (List α)) (xs : List α)
+    (hrows : ∀ r ∈ rows, r.length = C) (hrl : xs.length = rows.length) :
+    (List.zipWith (insAt i) rows xs).flatten.length = rows.flatten.length + xs.length := by
+  rw [flatten_length_uniform (C + 1) _ (zipWith_insAt_row_length C i hi rows xs hrows),
+    flatten_length_uniform C rows hrows, List.length_zipWith, ← hrl, Nat.min_self, Nat.mul_add]
+  omega
+
+/-- inserting a column into an array without columns: the rows are the single items -/
+theorem zipWith_insAt_replicate_nil (xs : List α) :
+    (List.zipWith (insAt 0) (List.replicate xs.length ([] : List α)) xs).flatten = xs := by
+  induction xs with
+  | nil => simp
+  | cons x xs ih => simp [List.replicate_succ, insAt, ih]
+
+/-- `insert_col` with an honest iterator on a buffer that is the concatenation of `rows` (one item per row), any
+    sufficient spare capacity, both modes: the complete outcome -/
+theorem insertCol_honest (m : Mode) (cap : Nat) (t : TD α) (i : Nat) (xs spare : List α) (rows : List (List α))
+    (hrows : ∀ r ∈ rows, r.length = t.numCols) (hdata : t.data = rows.flatten) (hrl : xs.length = rows.length)
+    (hi : i ≤ t.numCols) (hlen : t.numCols = 0 ∨ xs.length = t.numRows)
+    (hcap : t.data.length + xs.length ≤ cap) (hsp : xs.length ≤ spare.length)
+    (hword : t.data.length + xs.length < WORD) :
+    t.insertCol m cap i (honest xs) spare =
+      if xs.length > 0 then ⟨⟨(List.zipWith (insAt i) rows xs).flatten, xs.length, t.numCols + 1⟩, .ok (), [], []⟩
+      else ⟨⟨(List.zipWith (insAt i) rows xs).flatten, 0, 0⟩, .ok (), [], []⟩ := by
+  have hR : (if t.numCols = 0 then xs.length else t.numRows) = xs.length := by
+    rcases hlen with h0 | h1
+    · simp [h0]
+    · simp [h1]
+  have hlenOk : (t.numCols == 0 || t.numRows == xs.length) = true := by
+    rcases hlen with h0 | h1
+    · simp [h0]
+    · simp [h1]
+  have hres : reserveOk cap t.data.length xs.length = true := by simp [reserveOk, hcap]
+  have hadd : uadd m t.data.length xs.length = .ok (t.data.length + xs.length) := uadd_ok m _ _ hword
+  have hsub : usub m t.numCols i = .ok (t.numCols - i) := usub_ok m _ _ hi
+  have hspn : ¬ spare.length < xs.length := by omega
+  have hcrit := insertColCrit_spec m t.numCols i hi rows xs spare hrows hrl hsp
+  rw [← hdata] at hcrit
+  have hflat : (List.zipWith (insAt i) rows xs).flatten.length = t.data.length + xs.length := by
+    rw [hdata]; exact zipWith_insAt_flatten_length t.numCols i hi rows xs hrows hrl
+  have htake : List.take (t.data.length + xs.length)
+      ((List.zipWith (insAt i) rows xs).flatten ++ spare.drop xs.length) = (List.zipWith (insAt i) rows xs).flatten :=
+    List.take_left' hflat
+  unfold TD.insertCol
+  simp only [honest, hlenOk, hres, hR, hadd, hsub, hcrit, htake, Bool.not_true, Bool.false_eq_true,
+    if_false, if_neg hspn, hi, not_true_eq_false, List.reverse_nil, pure_eq]
+
 end Toodee
